@@ -83,9 +83,16 @@ def determinism_sample(mod, check, tier, plan, n=32):
     bad = []
     cnt = 0
     pops = [p for p, _ in plan]
+    heavy_done = set()
     for j in range(n):
         population = pops[j % len(pops)]
         i = j // len(pops)
+        if population in core.HEAVY_POPULATIONS:
+            # long runs: one seed twice is what the sample can afford (the
+            # full self-test covers them like any other population)
+            if population in heavy_done:
+                continue
+            heavy_done.add(population)
         d = []
         try:
             for _ in range(2):
@@ -123,6 +130,13 @@ def main(argv):
     sys.stdout.flush()
     t0 = time.time()
     plan = [(p, max(1, int(n * scale))) for p, n in mod.PLANS[check][tier]]
+    if os.environ.get('VERIF_POPS'):
+        # debugging aid: restrict the plan to some populations ("name" or
+        # "name:count")
+        want = dict((x.split(':') + [None])[:2]
+                    for x in os.environ['VERIF_POPS'].split(','))
+        plan = [(p, int(want[p]) if want[p] else n) for p, n in plan
+                if p in want]
     if hasattr(mod, 'prepare'):
         mod.prepare(check, tier, plan)
     wall_cap = float(os.environ.get(
